@@ -127,6 +127,7 @@ type Enc struct {
 
 	ordCache       map[ssa.Instruction]int
 	usedContracts  map[string]bool
+	spawnSites     map[ssa.Instruction]bool // go statements on functions without contract seen so far
 	arbParams      map[*ssa.Parameter]bool // parameters of inlined helpers that receive an arbitrary user value
 	usedKeys       map[string]bool // contract keys of the module functions called by contract
 	extra          []Term
